@@ -117,9 +117,9 @@ def convert(frame, dirn, lon, lat, par):
             obj.set(val)
         a, b = fn(*args)
     elif frame == "gal":
-        a, b = fn(Angle(lon), Angle(lat))
+        a, b = fn(S.angle_with_tolerance(lon), S.angle_with_tolerance(lat, 1))
     else:
-        a, b = fn(Angle(lon), Angle(lat), Angle(par))
+        a, b = fn(S.angle_with_tolerance(lon), S.angle_with_tolerance(lat, 1), S.angle_with_tolerance(par, 2))
     if not isinstance(a, Angle) or not isinstance(b, Angle):
         raise Violation("%s returned %r, %r instead of two Angles" % (site, a, b), site=site,
                         kind="type")
